@@ -1,7 +1,9 @@
 //! roocverif — generates cases, runs the real rooc code on them and writes, per case, the request for
 //! the Lean model, the implementation's canonical answer and the exact-oracle request.
 mod case;
+mod corpus_models;
 mod explore;
+mod gen_model;
 mod gen_exp;
 mod props;
 mod rng;
